@@ -3,6 +3,7 @@ package main
 import (
 	"encoding/json"
 	"fmt"
+	"os"
 	"reflect"
 	"sort"
 	"strings"
@@ -107,6 +108,8 @@ func c19helpShows(f *pflag.Flag) (bool, string) {
 	return strings.HasSuffix(line, want), line
 }
 
+var c19binary string
+
 type c19e2e struct {
 	Name string `json:"name"`
 	Flag string `json:"flag"`
@@ -159,6 +162,14 @@ func c19e2eCheck(e cliEntry, f *pflag.Flag) (string, string) {
 	with, r1 := cliExec(mcrt.Config{MapMode: mcrt.MapSorted}, args2, e.Stdin, e.Files, e.Out)
 	o0 := verdictStr(r0) + " " + base.String()
 	o1 := verdictStr(r1) + " " + with.String()
+	if o0 == o1 && c19binary != "" && !c18hasFlag(e.Args, "-t") { // several threads: record order is free (C11/C18)
+		// the same pair in fresh processes of the plain binary
+		f0, _ := cliFreshRun(c19binary, e, e.Args)
+		f1, _ := cliFreshRun(c19binary, e, args2)
+		if f0 != f1 {
+			o0, o1 = "fresh process: "+f0, "fresh process: "+f1
+		}
+	}
 	if o0 != o1 {
 		c, _ := c19resolve(e.Args)
 		return fmt.Sprintf("C19/behaviour/%s --%s", c.CommandPath(), f.Name),
@@ -178,6 +189,12 @@ func init() {
 		Require:     []string{"flags_static", "flags_shared_storage", "e2e_pairs"},
 		Run: func(c *Ctx) {
 			defer cliCleanup()
+			if !c.Quick() {
+				c19binary = os.Getenv("VERIF_GOTREE_BIN")
+				if c19binary != "" {
+					c.Note("fresh_processes", "thorough tier: every omitted/explicit-default pair is also run in fresh processes of the plain binary")
+				}
+			}
 			flags := c19flags()
 			groups := map[uintptr][]int{}
 			for i, f := range flags {
